@@ -895,6 +895,79 @@ Definition expect_clientV2_StartClose : list string :=
   [ "call c.SetReadyCount"
   ; "call atomic.StoreInt32" ].
 
+(* connection ids come from ONE atomic increment (never reused, never shared) *)
+Definition expect_protocolV2_NewClient : list string :=
+  [ "call atomic.AddInt64"
+  ; "call newClientV2"
+  ; "return" ].
+
+(* pause / unpause of a channel: the flag is stored FIRST, then every consumer is woken to re-read it *)
+Definition expect_Channel_doPause : list string :=
+  [ "if pause {"
+  ; "call atomic.StoreInt32"
+  ; "} else {"
+  ; "call atomic.StoreInt32"
+  ; "}"
+  ; "call c.RLock"
+  ; "range c.clients {"
+  ; "if pause {"
+  ; "call client.Pause"
+  ; "} else {"
+  ; "call client.UnPause"
+  ; "}"
+  ; "}"
+  ; "call c.RUnlock"
+  ; "return" ].
+
+(* pause / unpause of a topic: the flag is stored, then the pump is told *)
+Definition expect_Topic_doPause : list string :=
+  [ "if pause {"
+  ; "call atomic.StoreInt32"
+  ; "} else {"
+  ; "call atomic.StoreInt32"
+  ; "}"
+  ; "select {"
+  ; "case t.pauseChan <- 1:"
+  ; "case <-t.exitChan:"
+  ; "}"
+  ; "return" ].
+
+(* pop from the deferred map *)
+Definition expect_Channel_popDeferredMessage : list string :=
+  [ "call c.deferredMutex.Lock"
+  ; "if !ok {"
+  ; "call c.deferredMutex.Unlock"
+  ; "call errors.New"
+  ; "return"
+  ; "}"
+  ; "call delete"
+  ; "call c.deferredMutex.Unlock"
+  ; "return" ].
+
+(* one deferred entry per id *)
+Definition expect_Channel_pushDeferredMessage : list string :=
+  [ "call c.deferredMutex.Lock"
+  ; "if ok {"
+  ; "call c.deferredMutex.Unlock"
+  ; "call errors.New"
+  ; "return"
+  ; "}"
+  ; "set c.deferredMessages[id]=item"
+  ; "call c.deferredMutex.Unlock"
+  ; "return" ].
+
+(* timeout queue insertion under the in-flight mutex *)
+Definition expect_Channel_addToInFlightPQ : list string :=
+  [ "call c.inFlightMutex.Lock"
+  ; "call c.inFlightPQ.Push"
+  ; "call c.inFlightMutex.Unlock" ].
+
+(* deferred queue insertion under the deferred mutex *)
+Definition expect_Channel_addToDeferredPQ : list string :=
+  [ "call c.deferredMutex.Lock"
+  ; "call heap.Push"
+  ; "call c.deferredMutex.Unlock" ].
+
 (* the consumer pump declares its per-iteration message variables INSIDE the loop (a stale disk buffer cannot be delivered twice) *)
 Definition expect_pump_loop_head : list string :=
   [ "for {"
@@ -955,89 +1028,382 @@ Definition expect_pump_sources : list string :=
   ; "case <-client.ExitChan:" ].
 
 Definition src_facts_C01 : Prop :=
-  shape_Channel_put = expect_Channel_put
+  shape_protocolV2_FIN = expect_protocolV2_FIN
+  /\ shape_protocolV2_REQ = expect_protocolV2_REQ
+  /\ shape_protocolV2_TOUCH = expect_protocolV2_TOUCH
+  /\ shape_protocolV2_CLS = expect_protocolV2_CLS
+  /\ shape_protocolV2_SendMessage = expect_protocolV2_SendMessage
+  /\ shape_Channel_put = expect_Channel_put
   /\ shape_Channel_PutMessage = expect_Channel_PutMessage
   /\ shape_Channel_PutMessageDeferred = expect_Channel_PutMessageDeferred
   /\ shape_Channel_StartInFlightTimeout = expect_Channel_StartInFlightTimeout
   /\ shape_Channel_StartDeferredTimeout = expect_Channel_StartDeferredTimeout
-  /\ shape_Channel_pushInFlightMessage = expect_Channel_pushInFlightMessage
-  /\ shape_Channel_processInFlightQueue = expect_Channel_processInFlightQueue
-  /\ shape_Channel_processDeferredQueue = expect_Channel_processDeferredQueue
+  /\ shape_Channel_FinishMessage = expect_Channel_FinishMessage
   /\ shape_Channel_RequeueMessage = expect_Channel_RequeueMessage
   /\ shape_Channel_TouchMessage = expect_Channel_TouchMessage
+  /\ shape_Channel_pushInFlightMessage = expect_Channel_pushInFlightMessage
+  /\ shape_Channel_popInFlightMessage = expect_Channel_popInFlightMessage
+  /\ shape_Channel_processInFlightQueue = expect_Channel_processInFlightQueue
+  /\ shape_Channel_processDeferredQueue = expect_Channel_processDeferredQueue
+  /\ shape_Channel_flush = expect_Channel_flush
+  /\ shape_Channel_exit = expect_Channel_exit
+  /\ shape_Channel_Empty = expect_Channel_Empty
+  /\ shape_Channel_empty = expect_Channel_empty
+  /\ shape_Channel_AddClient = expect_Channel_AddClient
+  /\ shape_Channel_RemoveClient = expect_Channel_RemoveClient
   /\ shape_Topic_messagePump = expect_Topic_messagePump
   /\ shape_Topic_put = expect_Topic_put
   /\ shape_Topic_PutMessage = expect_Topic_PutMessage
   /\ shape_Topic_PutMessages = expect_Topic_PutMessages
+  /\ shape_Topic_flush = expect_Topic_flush
+  /\ shape_Topic_exit = expect_Topic_exit
   /\ shape_Topic_GetChannel = expect_Topic_GetChannel
-  /\ drop_until "if len(b) != 0 {" shape_protocolV2_messagePump = expect_pump_deliver
-  /\ seg "for {" "call client.IsReadyForMessages" shape_protocolV2_messagePump = expect_pump_loop_head.
-
-Definition src_facts_C02 : Prop :=
-  shape_Channel_FinishMessage = expect_Channel_FinishMessage
-  /\ shape_Channel_popInFlightMessage = expect_Channel_popInFlightMessage
-  /\ shape_Channel_pushInFlightMessage = expect_Channel_pushInFlightMessage
-  /\ shape_Channel_TouchMessage = expect_Channel_TouchMessage
-  /\ shape_Channel_RequeueMessage = expect_Channel_RequeueMessage
-  /\ shape_Channel_StartInFlightTimeout = expect_Channel_StartInFlightTimeout
-  /\ shape_Channel_processInFlightQueue = expect_Channel_processInFlightQueue
-  /\ shape_protocolV2_FIN = expect_protocolV2_FIN
-  /\ shape_protocolV2_REQ = expect_protocolV2_REQ
-  /\ shape_protocolV2_TOUCH = expect_protocolV2_TOUCH
-  /\ drop_until "if len(b) != 0 {" shape_protocolV2_messagePump = expect_pump_deliver
-  /\ seg "for {" "call client.IsReadyForMessages" shape_protocolV2_messagePump = expect_pump_loop_head.
-
-Definition src_facts_C03 : Prop :=
-  shape_clientV2_SetReadyCount = expect_clientV2_SetReadyCount
+  /\ shape_Topic_DeleteExistingChannel = expect_Topic_DeleteExistingChannel
+  /\ shape_NSQD_GetTopic = expect_NSQD_GetTopic
+  /\ shape_NSQD_DeleteExistingTopic = expect_NSQD_DeleteExistingTopic
+  /\ shape_NSQD_Exit = expect_NSQD_Exit
+  /\ shape_clientV2_SetReadyCount = expect_clientV2_SetReadyCount
   /\ shape_clientV2_IsReadyForMessages = expect_clientV2_IsReadyForMessages
   /\ shape_clientV2_SendingMessage = expect_clientV2_SendingMessage
   /\ shape_clientV2_FinishedMessage = expect_clientV2_FinishedMessage
   /\ shape_clientV2_TimedOutMessage = expect_clientV2_TimedOutMessage
   /\ shape_clientV2_RequeuedMessage = expect_clientV2_RequeuedMessage
   /\ shape_clientV2_StartClose = expect_clientV2_StartClose
-  /\ shape_protocolV2_CLS = expect_protocolV2_CLS
+  /\ shape_protocolV2_NewClient = expect_protocolV2_NewClient
+  /\ shape_Channel_doPause = expect_Channel_doPause
+  /\ shape_Topic_doPause = expect_Topic_doPause
+  /\ shape_Channel_popDeferredMessage = expect_Channel_popDeferredMessage
+  /\ shape_Channel_pushDeferredMessage = expect_Channel_pushDeferredMessage
+  /\ shape_Channel_addToInFlightPQ = expect_Channel_addToInFlightPQ
+  /\ shape_Channel_addToDeferredPQ = expect_Channel_addToDeferredPQ
+  /\ seg "for {" "call client.IsReadyForMessages" shape_protocolV2_messagePump = expect_pump_loop_head
   /\ seg "if subChannel == nil || !client.IsReadyForMessages() {" "call client.writeLock.Lock" shape_protocolV2_messagePump = expect_pump_not_ready
-  /\ cases_of shape_protocolV2_messagePump = expect_pump_sources
-  /\ shape_Topic_messagePump = expect_Topic_messagePump.
+  /\ drop_until "if len(b) != 0 {" shape_protocolV2_messagePump = expect_pump_deliver
+  /\ cases_of shape_protocolV2_messagePump = expect_pump_sources.
 
-Definition src_facts_C05 : Prop :=
-  shape_Topic_messagePump = expect_Topic_messagePump
-  /\ shape_Channel_flush = expect_Channel_flush
-  /\ shape_Channel_exit = expect_Channel_exit
-  /\ shape_Topic_flush = expect_Topic_flush
-  /\ shape_Topic_exit = expect_Topic_exit
-  /\ shape_NSQD_Exit = expect_NSQD_Exit
+Definition src_facts_C02 : Prop :=
+  shape_protocolV2_FIN = expect_protocolV2_FIN
+  /\ shape_protocolV2_REQ = expect_protocolV2_REQ
+  /\ shape_protocolV2_TOUCH = expect_protocolV2_TOUCH
+  /\ shape_protocolV2_CLS = expect_protocolV2_CLS
+  /\ shape_protocolV2_SendMessage = expect_protocolV2_SendMessage
+  /\ shape_Channel_put = expect_Channel_put
+  /\ shape_Channel_PutMessage = expect_Channel_PutMessage
+  /\ shape_Channel_PutMessageDeferred = expect_Channel_PutMessageDeferred
+  /\ shape_Channel_StartInFlightTimeout = expect_Channel_StartInFlightTimeout
+  /\ shape_Channel_StartDeferredTimeout = expect_Channel_StartDeferredTimeout
+  /\ shape_Channel_FinishMessage = expect_Channel_FinishMessage
   /\ shape_Channel_RequeueMessage = expect_Channel_RequeueMessage
+  /\ shape_Channel_TouchMessage = expect_Channel_TouchMessage
+  /\ shape_Channel_pushInFlightMessage = expect_Channel_pushInFlightMessage
+  /\ shape_Channel_popInFlightMessage = expect_Channel_popInFlightMessage
   /\ shape_Channel_processInFlightQueue = expect_Channel_processInFlightQueue
   /\ shape_Channel_processDeferredQueue = expect_Channel_processDeferredQueue
-  /\ shape_Channel_PutMessage = expect_Channel_PutMessage
-  /\ shape_Topic_PutMessage = expect_Topic_PutMessage
-  /\ shape_Topic_PutMessages = expect_Topic_PutMessages.
-
-Definition src_facts_C08 : Prop :=
-  shape_Channel_Empty = expect_Channel_Empty
-  /\ shape_Channel_empty = expect_Channel_empty
+  /\ shape_Channel_flush = expect_Channel_flush
   /\ shape_Channel_exit = expect_Channel_exit
+  /\ shape_Channel_Empty = expect_Channel_Empty
+  /\ shape_Channel_empty = expect_Channel_empty
   /\ shape_Channel_AddClient = expect_Channel_AddClient
   /\ shape_Channel_RemoveClient = expect_Channel_RemoveClient
+  /\ shape_Topic_messagePump = expect_Topic_messagePump
+  /\ shape_Topic_put = expect_Topic_put
+  /\ shape_Topic_PutMessage = expect_Topic_PutMessage
+  /\ shape_Topic_PutMessages = expect_Topic_PutMessages
+  /\ shape_Topic_flush = expect_Topic_flush
+  /\ shape_Topic_exit = expect_Topic_exit
+  /\ shape_Topic_GetChannel = expect_Topic_GetChannel
   /\ shape_Topic_DeleteExistingChannel = expect_Topic_DeleteExistingChannel
-  /\ shape_NSQD_DeleteExistingTopic = expect_NSQD_DeleteExistingTopic
   /\ shape_NSQD_GetTopic = expect_NSQD_GetTopic
-  /\ shape_protocolV2_FIN = expect_protocolV2_FIN.
-
-Definition src_facts_C12 : Prop :=
-  shape_NSQD_GetTopic = expect_NSQD_GetTopic.
-
-Definition src_facts_C13 : Prop :=
-  shape_clientV2_SendingMessage = expect_clientV2_SendingMessage
+  /\ shape_NSQD_DeleteExistingTopic = expect_NSQD_DeleteExistingTopic
+  /\ shape_NSQD_Exit = expect_NSQD_Exit
+  /\ shape_clientV2_SetReadyCount = expect_clientV2_SetReadyCount
+  /\ shape_clientV2_IsReadyForMessages = expect_clientV2_IsReadyForMessages
+  /\ shape_clientV2_SendingMessage = expect_clientV2_SendingMessage
   /\ shape_clientV2_FinishedMessage = expect_clientV2_FinishedMessage
   /\ shape_clientV2_TimedOutMessage = expect_clientV2_TimedOutMessage
   /\ shape_clientV2_RequeuedMessage = expect_clientV2_RequeuedMessage
-  /\ shape_Channel_processInFlightQueue = expect_Channel_processInFlightQueue
-  /\ shape_Channel_FinishMessage = expect_Channel_FinishMessage
+  /\ shape_clientV2_StartClose = expect_clientV2_StartClose
+  /\ shape_protocolV2_NewClient = expect_protocolV2_NewClient
+  /\ shape_Channel_doPause = expect_Channel_doPause
+  /\ shape_Topic_doPause = expect_Topic_doPause
+  /\ shape_Channel_popDeferredMessage = expect_Channel_popDeferredMessage
+  /\ shape_Channel_pushDeferredMessage = expect_Channel_pushDeferredMessage
+  /\ shape_Channel_addToInFlightPQ = expect_Channel_addToInFlightPQ
+  /\ shape_Channel_addToDeferredPQ = expect_Channel_addToDeferredPQ
+  /\ seg "for {" "call client.IsReadyForMessages" shape_protocolV2_messagePump = expect_pump_loop_head
+  /\ seg "if subChannel == nil || !client.IsReadyForMessages() {" "call client.writeLock.Lock" shape_protocolV2_messagePump = expect_pump_not_ready
+  /\ drop_until "if len(b) != 0 {" shape_protocolV2_messagePump = expect_pump_deliver
+  /\ cases_of shape_protocolV2_messagePump = expect_pump_sources.
+
+Definition src_facts_C03 : Prop :=
+  shape_protocolV2_FIN = expect_protocolV2_FIN
+  /\ shape_protocolV2_REQ = expect_protocolV2_REQ
+  /\ shape_protocolV2_TOUCH = expect_protocolV2_TOUCH
+  /\ shape_protocolV2_CLS = expect_protocolV2_CLS
+  /\ shape_protocolV2_SendMessage = expect_protocolV2_SendMessage
+  /\ shape_Channel_put = expect_Channel_put
   /\ shape_Channel_PutMessage = expect_Channel_PutMessage
   /\ shape_Channel_PutMessageDeferred = expect_Channel_PutMessageDeferred
+  /\ shape_Channel_StartInFlightTimeout = expect_Channel_StartInFlightTimeout
+  /\ shape_Channel_StartDeferredTimeout = expect_Channel_StartDeferredTimeout
+  /\ shape_Channel_FinishMessage = expect_Channel_FinishMessage
+  /\ shape_Channel_RequeueMessage = expect_Channel_RequeueMessage
+  /\ shape_Channel_TouchMessage = expect_Channel_TouchMessage
+  /\ shape_Channel_pushInFlightMessage = expect_Channel_pushInFlightMessage
+  /\ shape_Channel_popInFlightMessage = expect_Channel_popInFlightMessage
+  /\ shape_Channel_processInFlightQueue = expect_Channel_processInFlightQueue
+  /\ shape_Channel_processDeferredQueue = expect_Channel_processDeferredQueue
+  /\ shape_Channel_flush = expect_Channel_flush
+  /\ shape_Channel_exit = expect_Channel_exit
+  /\ shape_Channel_Empty = expect_Channel_Empty
+  /\ shape_Channel_empty = expect_Channel_empty
+  /\ shape_Channel_AddClient = expect_Channel_AddClient
+  /\ shape_Channel_RemoveClient = expect_Channel_RemoveClient
+  /\ shape_Topic_messagePump = expect_Topic_messagePump
+  /\ shape_Topic_put = expect_Topic_put
   /\ shape_Topic_PutMessage = expect_Topic_PutMessage
   /\ shape_Topic_PutMessages = expect_Topic_PutMessages
-  /\ shape_protocolV2_FIN = expect_protocolV2_FIN
-  /\ shape_protocolV2_REQ = expect_protocolV2_REQ.
+  /\ shape_Topic_flush = expect_Topic_flush
+  /\ shape_Topic_exit = expect_Topic_exit
+  /\ shape_Topic_GetChannel = expect_Topic_GetChannel
+  /\ shape_Topic_DeleteExistingChannel = expect_Topic_DeleteExistingChannel
+  /\ shape_NSQD_GetTopic = expect_NSQD_GetTopic
+  /\ shape_NSQD_DeleteExistingTopic = expect_NSQD_DeleteExistingTopic
+  /\ shape_NSQD_Exit = expect_NSQD_Exit
+  /\ shape_clientV2_SetReadyCount = expect_clientV2_SetReadyCount
+  /\ shape_clientV2_IsReadyForMessages = expect_clientV2_IsReadyForMessages
+  /\ shape_clientV2_SendingMessage = expect_clientV2_SendingMessage
+  /\ shape_clientV2_FinishedMessage = expect_clientV2_FinishedMessage
+  /\ shape_clientV2_TimedOutMessage = expect_clientV2_TimedOutMessage
+  /\ shape_clientV2_RequeuedMessage = expect_clientV2_RequeuedMessage
+  /\ shape_clientV2_StartClose = expect_clientV2_StartClose
+  /\ shape_protocolV2_NewClient = expect_protocolV2_NewClient
+  /\ shape_Channel_doPause = expect_Channel_doPause
+  /\ shape_Topic_doPause = expect_Topic_doPause
+  /\ shape_Channel_popDeferredMessage = expect_Channel_popDeferredMessage
+  /\ shape_Channel_pushDeferredMessage = expect_Channel_pushDeferredMessage
+  /\ shape_Channel_addToInFlightPQ = expect_Channel_addToInFlightPQ
+  /\ shape_Channel_addToDeferredPQ = expect_Channel_addToDeferredPQ
+  /\ seg "for {" "call client.IsReadyForMessages" shape_protocolV2_messagePump = expect_pump_loop_head
+  /\ seg "if subChannel == nil || !client.IsReadyForMessages() {" "call client.writeLock.Lock" shape_protocolV2_messagePump = expect_pump_not_ready
+  /\ drop_until "if len(b) != 0 {" shape_protocolV2_messagePump = expect_pump_deliver
+  /\ cases_of shape_protocolV2_messagePump = expect_pump_sources.
+
+Definition src_facts_C04 : Prop :=
+  shape_protocolV2_FIN = expect_protocolV2_FIN
+  /\ shape_protocolV2_REQ = expect_protocolV2_REQ
+  /\ shape_protocolV2_TOUCH = expect_protocolV2_TOUCH
+  /\ shape_protocolV2_CLS = expect_protocolV2_CLS
+  /\ shape_protocolV2_SendMessage = expect_protocolV2_SendMessage
+  /\ shape_Channel_put = expect_Channel_put
+  /\ shape_Channel_PutMessage = expect_Channel_PutMessage
+  /\ shape_Channel_PutMessageDeferred = expect_Channel_PutMessageDeferred
+  /\ shape_Channel_StartInFlightTimeout = expect_Channel_StartInFlightTimeout
+  /\ shape_Channel_StartDeferredTimeout = expect_Channel_StartDeferredTimeout
+  /\ shape_Channel_FinishMessage = expect_Channel_FinishMessage
+  /\ shape_Channel_RequeueMessage = expect_Channel_RequeueMessage
+  /\ shape_Channel_TouchMessage = expect_Channel_TouchMessage
+  /\ shape_Channel_pushInFlightMessage = expect_Channel_pushInFlightMessage
+  /\ shape_Channel_popInFlightMessage = expect_Channel_popInFlightMessage
+  /\ shape_Channel_processInFlightQueue = expect_Channel_processInFlightQueue
+  /\ shape_Channel_processDeferredQueue = expect_Channel_processDeferredQueue
+  /\ shape_Channel_flush = expect_Channel_flush
+  /\ shape_Channel_exit = expect_Channel_exit
+  /\ shape_Channel_Empty = expect_Channel_Empty
+  /\ shape_Channel_empty = expect_Channel_empty
+  /\ shape_Channel_AddClient = expect_Channel_AddClient
+  /\ shape_Channel_RemoveClient = expect_Channel_RemoveClient
+  /\ shape_Topic_messagePump = expect_Topic_messagePump
+  /\ shape_Topic_put = expect_Topic_put
+  /\ shape_Topic_PutMessage = expect_Topic_PutMessage
+  /\ shape_Topic_PutMessages = expect_Topic_PutMessages
+  /\ shape_Topic_flush = expect_Topic_flush
+  /\ shape_Topic_exit = expect_Topic_exit
+  /\ shape_Topic_GetChannel = expect_Topic_GetChannel
+  /\ shape_Topic_DeleteExistingChannel = expect_Topic_DeleteExistingChannel
+  /\ shape_NSQD_GetTopic = expect_NSQD_GetTopic
+  /\ shape_NSQD_DeleteExistingTopic = expect_NSQD_DeleteExistingTopic
+  /\ shape_NSQD_Exit = expect_NSQD_Exit
+  /\ shape_clientV2_SetReadyCount = expect_clientV2_SetReadyCount
+  /\ shape_clientV2_IsReadyForMessages = expect_clientV2_IsReadyForMessages
+  /\ shape_clientV2_SendingMessage = expect_clientV2_SendingMessage
+  /\ shape_clientV2_FinishedMessage = expect_clientV2_FinishedMessage
+  /\ shape_clientV2_TimedOutMessage = expect_clientV2_TimedOutMessage
+  /\ shape_clientV2_RequeuedMessage = expect_clientV2_RequeuedMessage
+  /\ shape_clientV2_StartClose = expect_clientV2_StartClose
+  /\ shape_protocolV2_NewClient = expect_protocolV2_NewClient
+  /\ shape_Channel_doPause = expect_Channel_doPause
+  /\ shape_Topic_doPause = expect_Topic_doPause
+  /\ shape_Channel_popDeferredMessage = expect_Channel_popDeferredMessage
+  /\ shape_Channel_pushDeferredMessage = expect_Channel_pushDeferredMessage
+  /\ shape_Channel_addToInFlightPQ = expect_Channel_addToInFlightPQ
+  /\ shape_Channel_addToDeferredPQ = expect_Channel_addToDeferredPQ
+  /\ seg "for {" "call client.IsReadyForMessages" shape_protocolV2_messagePump = expect_pump_loop_head
+  /\ seg "if subChannel == nil || !client.IsReadyForMessages() {" "call client.writeLock.Lock" shape_protocolV2_messagePump = expect_pump_not_ready
+  /\ drop_until "if len(b) != 0 {" shape_protocolV2_messagePump = expect_pump_deliver
+  /\ cases_of shape_protocolV2_messagePump = expect_pump_sources.
+
+Definition src_facts_C05 : Prop :=
+  shape_protocolV2_FIN = expect_protocolV2_FIN
+  /\ shape_protocolV2_REQ = expect_protocolV2_REQ
+  /\ shape_protocolV2_TOUCH = expect_protocolV2_TOUCH
+  /\ shape_protocolV2_CLS = expect_protocolV2_CLS
+  /\ shape_protocolV2_SendMessage = expect_protocolV2_SendMessage
+  /\ shape_Channel_put = expect_Channel_put
+  /\ shape_Channel_PutMessage = expect_Channel_PutMessage
+  /\ shape_Channel_PutMessageDeferred = expect_Channel_PutMessageDeferred
+  /\ shape_Channel_StartInFlightTimeout = expect_Channel_StartInFlightTimeout
+  /\ shape_Channel_StartDeferredTimeout = expect_Channel_StartDeferredTimeout
+  /\ shape_Channel_FinishMessage = expect_Channel_FinishMessage
+  /\ shape_Channel_RequeueMessage = expect_Channel_RequeueMessage
+  /\ shape_Channel_TouchMessage = expect_Channel_TouchMessage
+  /\ shape_Channel_pushInFlightMessage = expect_Channel_pushInFlightMessage
+  /\ shape_Channel_popInFlightMessage = expect_Channel_popInFlightMessage
+  /\ shape_Channel_processInFlightQueue = expect_Channel_processInFlightQueue
+  /\ shape_Channel_processDeferredQueue = expect_Channel_processDeferredQueue
+  /\ shape_Channel_flush = expect_Channel_flush
+  /\ shape_Channel_exit = expect_Channel_exit
+  /\ shape_Channel_Empty = expect_Channel_Empty
+  /\ shape_Channel_empty = expect_Channel_empty
+  /\ shape_Channel_AddClient = expect_Channel_AddClient
+  /\ shape_Channel_RemoveClient = expect_Channel_RemoveClient
+  /\ shape_Topic_messagePump = expect_Topic_messagePump
+  /\ shape_Topic_put = expect_Topic_put
+  /\ shape_Topic_PutMessage = expect_Topic_PutMessage
+  /\ shape_Topic_PutMessages = expect_Topic_PutMessages
+  /\ shape_Topic_flush = expect_Topic_flush
+  /\ shape_Topic_exit = expect_Topic_exit
+  /\ shape_Topic_GetChannel = expect_Topic_GetChannel
+  /\ shape_Topic_DeleteExistingChannel = expect_Topic_DeleteExistingChannel
+  /\ shape_NSQD_GetTopic = expect_NSQD_GetTopic
+  /\ shape_NSQD_DeleteExistingTopic = expect_NSQD_DeleteExistingTopic
+  /\ shape_NSQD_Exit = expect_NSQD_Exit
+  /\ shape_clientV2_SetReadyCount = expect_clientV2_SetReadyCount
+  /\ shape_clientV2_IsReadyForMessages = expect_clientV2_IsReadyForMessages
+  /\ shape_clientV2_SendingMessage = expect_clientV2_SendingMessage
+  /\ shape_clientV2_FinishedMessage = expect_clientV2_FinishedMessage
+  /\ shape_clientV2_TimedOutMessage = expect_clientV2_TimedOutMessage
+  /\ shape_clientV2_RequeuedMessage = expect_clientV2_RequeuedMessage
+  /\ shape_clientV2_StartClose = expect_clientV2_StartClose
+  /\ shape_protocolV2_NewClient = expect_protocolV2_NewClient
+  /\ shape_Channel_doPause = expect_Channel_doPause
+  /\ shape_Topic_doPause = expect_Topic_doPause
+  /\ shape_Channel_popDeferredMessage = expect_Channel_popDeferredMessage
+  /\ shape_Channel_pushDeferredMessage = expect_Channel_pushDeferredMessage
+  /\ shape_Channel_addToInFlightPQ = expect_Channel_addToInFlightPQ
+  /\ shape_Channel_addToDeferredPQ = expect_Channel_addToDeferredPQ
+  /\ seg "for {" "call client.IsReadyForMessages" shape_protocolV2_messagePump = expect_pump_loop_head
+  /\ seg "if subChannel == nil || !client.IsReadyForMessages() {" "call client.writeLock.Lock" shape_protocolV2_messagePump = expect_pump_not_ready
+  /\ drop_until "if len(b) != 0 {" shape_protocolV2_messagePump = expect_pump_deliver
+  /\ cases_of shape_protocolV2_messagePump = expect_pump_sources.
+
+Definition src_facts_C08 : Prop :=
+  shape_protocolV2_FIN = expect_protocolV2_FIN
+  /\ shape_protocolV2_REQ = expect_protocolV2_REQ
+  /\ shape_protocolV2_TOUCH = expect_protocolV2_TOUCH
+  /\ shape_protocolV2_CLS = expect_protocolV2_CLS
+  /\ shape_protocolV2_SendMessage = expect_protocolV2_SendMessage
+  /\ shape_Channel_put = expect_Channel_put
+  /\ shape_Channel_PutMessage = expect_Channel_PutMessage
+  /\ shape_Channel_PutMessageDeferred = expect_Channel_PutMessageDeferred
+  /\ shape_Channel_StartInFlightTimeout = expect_Channel_StartInFlightTimeout
+  /\ shape_Channel_StartDeferredTimeout = expect_Channel_StartDeferredTimeout
+  /\ shape_Channel_FinishMessage = expect_Channel_FinishMessage
+  /\ shape_Channel_RequeueMessage = expect_Channel_RequeueMessage
+  /\ shape_Channel_TouchMessage = expect_Channel_TouchMessage
+  /\ shape_Channel_pushInFlightMessage = expect_Channel_pushInFlightMessage
+  /\ shape_Channel_popInFlightMessage = expect_Channel_popInFlightMessage
+  /\ shape_Channel_processInFlightQueue = expect_Channel_processInFlightQueue
+  /\ shape_Channel_processDeferredQueue = expect_Channel_processDeferredQueue
+  /\ shape_Channel_flush = expect_Channel_flush
+  /\ shape_Channel_exit = expect_Channel_exit
+  /\ shape_Channel_Empty = expect_Channel_Empty
+  /\ shape_Channel_empty = expect_Channel_empty
+  /\ shape_Channel_AddClient = expect_Channel_AddClient
+  /\ shape_Channel_RemoveClient = expect_Channel_RemoveClient
+  /\ shape_Topic_messagePump = expect_Topic_messagePump
+  /\ shape_Topic_put = expect_Topic_put
+  /\ shape_Topic_PutMessage = expect_Topic_PutMessage
+  /\ shape_Topic_PutMessages = expect_Topic_PutMessages
+  /\ shape_Topic_flush = expect_Topic_flush
+  /\ shape_Topic_exit = expect_Topic_exit
+  /\ shape_Topic_GetChannel = expect_Topic_GetChannel
+  /\ shape_Topic_DeleteExistingChannel = expect_Topic_DeleteExistingChannel
+  /\ shape_NSQD_GetTopic = expect_NSQD_GetTopic
+  /\ shape_NSQD_DeleteExistingTopic = expect_NSQD_DeleteExistingTopic
+  /\ shape_NSQD_Exit = expect_NSQD_Exit
+  /\ shape_clientV2_SetReadyCount = expect_clientV2_SetReadyCount
+  /\ shape_clientV2_IsReadyForMessages = expect_clientV2_IsReadyForMessages
+  /\ shape_clientV2_SendingMessage = expect_clientV2_SendingMessage
+  /\ shape_clientV2_FinishedMessage = expect_clientV2_FinishedMessage
+  /\ shape_clientV2_TimedOutMessage = expect_clientV2_TimedOutMessage
+  /\ shape_clientV2_RequeuedMessage = expect_clientV2_RequeuedMessage
+  /\ shape_clientV2_StartClose = expect_clientV2_StartClose
+  /\ shape_protocolV2_NewClient = expect_protocolV2_NewClient
+  /\ shape_Channel_doPause = expect_Channel_doPause
+  /\ shape_Topic_doPause = expect_Topic_doPause
+  /\ shape_Channel_popDeferredMessage = expect_Channel_popDeferredMessage
+  /\ shape_Channel_pushDeferredMessage = expect_Channel_pushDeferredMessage
+  /\ shape_Channel_addToInFlightPQ = expect_Channel_addToInFlightPQ
+  /\ shape_Channel_addToDeferredPQ = expect_Channel_addToDeferredPQ
+  /\ seg "for {" "call client.IsReadyForMessages" shape_protocolV2_messagePump = expect_pump_loop_head
+  /\ seg "if subChannel == nil || !client.IsReadyForMessages() {" "call client.writeLock.Lock" shape_protocolV2_messagePump = expect_pump_not_ready
+  /\ drop_until "if len(b) != 0 {" shape_protocolV2_messagePump = expect_pump_deliver
+  /\ cases_of shape_protocolV2_messagePump = expect_pump_sources.
+
+Definition src_facts_C13 : Prop :=
+  shape_protocolV2_FIN = expect_protocolV2_FIN
+  /\ shape_protocolV2_REQ = expect_protocolV2_REQ
+  /\ shape_protocolV2_TOUCH = expect_protocolV2_TOUCH
+  /\ shape_protocolV2_CLS = expect_protocolV2_CLS
+  /\ shape_protocolV2_SendMessage = expect_protocolV2_SendMessage
+  /\ shape_Channel_put = expect_Channel_put
+  /\ shape_Channel_PutMessage = expect_Channel_PutMessage
+  /\ shape_Channel_PutMessageDeferred = expect_Channel_PutMessageDeferred
+  /\ shape_Channel_StartInFlightTimeout = expect_Channel_StartInFlightTimeout
+  /\ shape_Channel_StartDeferredTimeout = expect_Channel_StartDeferredTimeout
+  /\ shape_Channel_FinishMessage = expect_Channel_FinishMessage
+  /\ shape_Channel_RequeueMessage = expect_Channel_RequeueMessage
+  /\ shape_Channel_TouchMessage = expect_Channel_TouchMessage
+  /\ shape_Channel_pushInFlightMessage = expect_Channel_pushInFlightMessage
+  /\ shape_Channel_popInFlightMessage = expect_Channel_popInFlightMessage
+  /\ shape_Channel_processInFlightQueue = expect_Channel_processInFlightQueue
+  /\ shape_Channel_processDeferredQueue = expect_Channel_processDeferredQueue
+  /\ shape_Channel_flush = expect_Channel_flush
+  /\ shape_Channel_exit = expect_Channel_exit
+  /\ shape_Channel_Empty = expect_Channel_Empty
+  /\ shape_Channel_empty = expect_Channel_empty
+  /\ shape_Channel_AddClient = expect_Channel_AddClient
+  /\ shape_Channel_RemoveClient = expect_Channel_RemoveClient
+  /\ shape_Topic_messagePump = expect_Topic_messagePump
+  /\ shape_Topic_put = expect_Topic_put
+  /\ shape_Topic_PutMessage = expect_Topic_PutMessage
+  /\ shape_Topic_PutMessages = expect_Topic_PutMessages
+  /\ shape_Topic_flush = expect_Topic_flush
+  /\ shape_Topic_exit = expect_Topic_exit
+  /\ shape_Topic_GetChannel = expect_Topic_GetChannel
+  /\ shape_Topic_DeleteExistingChannel = expect_Topic_DeleteExistingChannel
+  /\ shape_NSQD_GetTopic = expect_NSQD_GetTopic
+  /\ shape_NSQD_DeleteExistingTopic = expect_NSQD_DeleteExistingTopic
+  /\ shape_NSQD_Exit = expect_NSQD_Exit
+  /\ shape_clientV2_SetReadyCount = expect_clientV2_SetReadyCount
+  /\ shape_clientV2_IsReadyForMessages = expect_clientV2_IsReadyForMessages
+  /\ shape_clientV2_SendingMessage = expect_clientV2_SendingMessage
+  /\ shape_clientV2_FinishedMessage = expect_clientV2_FinishedMessage
+  /\ shape_clientV2_TimedOutMessage = expect_clientV2_TimedOutMessage
+  /\ shape_clientV2_RequeuedMessage = expect_clientV2_RequeuedMessage
+  /\ shape_clientV2_StartClose = expect_clientV2_StartClose
+  /\ shape_protocolV2_NewClient = expect_protocolV2_NewClient
+  /\ shape_Channel_doPause = expect_Channel_doPause
+  /\ shape_Topic_doPause = expect_Topic_doPause
+  /\ shape_Channel_popDeferredMessage = expect_Channel_popDeferredMessage
+  /\ shape_Channel_pushDeferredMessage = expect_Channel_pushDeferredMessage
+  /\ shape_Channel_addToInFlightPQ = expect_Channel_addToInFlightPQ
+  /\ shape_Channel_addToDeferredPQ = expect_Channel_addToDeferredPQ
+  /\ seg "for {" "call client.IsReadyForMessages" shape_protocolV2_messagePump = expect_pump_loop_head
+  /\ seg "if subChannel == nil || !client.IsReadyForMessages() {" "call client.writeLock.Lock" shape_protocolV2_messagePump = expect_pump_not_ready
+  /\ drop_until "if len(b) != 0 {" shape_protocolV2_messagePump = expect_pump_deliver
+  /\ cases_of shape_protocolV2_messagePump = expect_pump_sources.
+
+Definition src_facts_C12 : Prop :=
+  shape_NSQD_GetTopic = expect_NSQD_GetTopic.
